@@ -47,6 +47,9 @@ func checkC24(c *core.Ctx) {
 	ruleAllocateShape(c)
 	ruleNewAllotmentShape(c)
 	ruleVisitAllotmentShape(c)
+	// exact rationals and arbitrary-size integers only: no machine-word or floating-point shortcut
+	// anywhere in the machine packages (numeric-type discipline shared with C36)
+	ruleNoLossyNumerics(c)
 }
 
 func ruleAllocateShape(c *core.Ctx) {
